@@ -182,7 +182,14 @@ def check_cases(ctx, cases):
         ctx.count(f"n_branches={min(len(bs), 9)}")
         for _, k, _ in bs:
             ctx.count("kind=" + k)
-        snp = build(bs)
+        try:
+            snp = build(bs)
+        except Exception as e:
+            # (every branch map with NUL-free names is a snapshot, unresolved and self-referencing aliases included)
+            ctx.fail(case, f"building the snapshot raises {type(e).__name__}: {str(e)[:100]}", "legal-branches-rejected:" + type(e).__name__)
+            impls.append(None)
+            reqs.extend([{"op": "ping"}] * 3)
+            continue
         strict = fmt(snp, False)
         loose = fmt(snp, True)
         # the (deprecated, still accepted) dictionary form of the argument behaves like the object
@@ -239,6 +246,8 @@ def check_cases(ctx, cases):
     for ci, case in enumerate(cases):
         r_strict, r_loose, r_dec = res[3 * ci : 3 * ci + 3]
         im = impls[ci]
+        if im is None:
+            continue
         if any("error" in r for r in (r_strict, r_loose, r_dec)):
             if ctx.model_available:
                 ctx.disagree(case, "model driver error", model=[r_strict, r_loose, r_dec])
